@@ -224,16 +224,42 @@ func checkC05(v *tunView, m *connModel) {
 		}
 	}
 	// the (channel, sequence number) each Send's request carried
-	type chseq struct{ ch, seq uint8 }
+	type chseq struct {
+		ch, seq uint8
+		at      Stamp
+	}
 	reqOf := map[int]chseq{}
 	for _, x := range v.tx {
 		if x.F.OK && x.F.Svc == svcTunnelReq && !x.Werr {
 			if id := cemiID(x.F.CEMI); id >= 0 {
 				if _, ok := reqOf[id]; !ok {
-					reqOf[id] = chseq{x.F.Channel, x.F.Seq}
+					reqOf[id] = chseq{x.F.Channel, x.F.Seq, x.At}
 				}
 			}
 		}
+	}
+	// onDeadChannel: the client sits on a connection the gateway does not have, because the connect
+	// response it took for the answer to its connect request was a stray copy of an older one
+	// (transmitted while the previous connection was still alive). Nothing in a connect response
+	// ties it to a request, so the client cannot tell; from then on delayed copies of old
+	// acknowledgements for that channel can satisfy its Sends.
+	onDeadChannel := func(rq chseq) bool {
+		for _, ep := range g.Epochs {
+			if ep.Channel == rq.ch && ep.Start.Seq <= rq.at.Seq && (ep.End.Seq == 0 || ep.End.Seq > rq.at.Seq) {
+				return false // the gateway has that connection
+			}
+		}
+		for k, ep := range m.epochs {
+			if k == 0 || ep.Start.Seq > rq.at.Seq || (ep.End.Seq != 0 && ep.End.Seq < rq.at.Seq) {
+				continue
+			}
+			for _, y := range v.rx {
+				if y.At.Seq == ep.Start.Seq && y.F.OK && y.F.Svc == svcConnRes {
+					return y.Ref != 0 && y.Ref < m.epochs[k-1].End.Seq
+				}
+			}
+		}
+		return false
 	}
 	failed := map[int]bool{}
 	for _, s := range r.h.Sends {
@@ -254,6 +280,9 @@ func checkC05(v *tunView, m *connModel) {
 						class = "send-ok-not-on-bus:reused-number-of-failed-send-that-reached-gateway"
 					}
 				}
+			}
+			if rq, ok := reqOf[s.ID]; ok && class == "send-ok-not-on-bus" && !m.giveUp && onDeadChannel(rq) {
+				class = "send-ok-not-on-bus:on-a-dead-channel-after-a-stray-connect-response"
 			}
 			e.Violate("C05", class, "Send id=%d reported success at %v but the gateway never put the telegram on the bus", s.ID, s.Ret.T)
 			continue
@@ -444,6 +473,34 @@ func checkC09(v *tunView, m *connModel) {
 				}
 			}
 			closing := m.closeInv != nil && m.closeInv.T <= dl
+			// The receive loop may have left the connection an instant before the disconnect
+			// request was read - a heartbeat that had just failed (error status, or its timeout
+			// running out) - and been held up on its way to the connect request (a stalled task,
+			// a stalled write). Then the request is read inside the reconnect exchange, which
+			// ignores it; what follows is the same connect request either way.
+			if n == 0 && !closing {
+				for _, y := range v.rx {
+					if y.F.OK && y.F.Svc == svcConnStateRes && y.F.Channel == ep.Channel && y.F.Status != 0 && y.At.Seq > ep.Start.Seq && y.At.Seq < ep.End.Seq && ep.End.T-y.At.T <= c.R+eps {
+						closing = true
+					}
+				}
+				var t0 time.Duration = -1
+				for i := len(hb) - 1; i >= 0; i-- {
+					if hb[i].F.Channel != ep.Channel {
+						continue
+					}
+					if t0 >= 0 && t0-hb[i].At.T > c.R+eps {
+						break
+					}
+					t0 = hb[i].At.T
+				}
+				if t0 >= 0 && ep.End.T-(t0+c.T) >= -eps && ep.End.T-(t0+c.T) <= eps {
+					closing = true
+				}
+				if closing {
+					e.Probe("disconnect-request-met-a-failed-heartbeat")
+				}
+			}
 			if n != 1 && !closing {
 				e.Violate("C09", "disconnect-request-not-answered", "disconnect request for the live channel %d read at %v was answered with %d disconnect responses", ep.Channel, ep.End.T, n)
 			}
